@@ -44,7 +44,7 @@ def gen_line_lexemes(rng, vocab):
             lx.append([1, t])
             prev = "text"
         elif r < 0.60:
-            inner = rng.choice(["", "A", "hello", "PRINT", "goto 10", "a;b", "x'y", "é"[:0] + "ok", " "])
+            inner = rng.choice(["", "A", "hello", "PRINT", "goto 10", "a;b", "x'y", "é"[:0] + "ok", " ", "\x0c30 points", "a\x0bb", "\x1c", "x\x1d\x1e7", "\x7f~", "tab\there"])
             lx.append([2, inner, 1])
             prev = "string"
         else:
